@@ -90,6 +90,14 @@ CHECKS = {
              "option, repeated loads of the same object, nested documents through JSON and YAML (strings and files); loaded elements are "
              "compared with an independent reading of the description, documents structurally, arguments by deep fingerprint before/after.",
         design='5/C17', technique='runtime oracle (independent reading of the description) + before/after fingerprint sentinels'),
+    'C19': dict(
+        category='fault_enumeration',
+        text="Fault enumeration at the API boundary: for each generated valid base description one fault of every anchored class is injected at "
+             "every position (all ordered pairs for duplicate ids, every insertion position for a second ground, every sign-checked parameter of "
+             "every constructor, every required field of every loader entry, unknown types, unknown ids against all six solution kinds) and the "
+             "call must raise; the unfaulted base and the boundary value 0 must be accepted and stored unaltered. The fault space per base is "
+             "enumerated completely; the bases are sampled.",
+        design='5/C19', technique='fault injection with a raise/no-raise monitor at the constructor, loader and query boundary'),
 }
 
 NOT_YET = "check not built yet in this round (work in progress; see DESIGN.md section 5)"
